@@ -22,7 +22,7 @@ from vf.xlate import BACKENDS, translate
 RULE = (
     "case = (back end, generated base query with metadata, relation, variant). relations: qastle = python->qastle text->python round "
     "trip; alpha = random capture-avoiding renaming of lambda parameters (fresh names, or an outer parameter's name when the inner lambda "
-    "does not mention it); shadow = one inner parameter renamed to an enclosing parameter's name that the inner lambda never mentions; metadata = every MetaData call re-attached at a random place of the main chain, relative order "
+    "does not mention it); sibling-names = the filter parameter of a value computed in one Select step called like the parameters of the filters a later step applies (no lexical shadowing); shadow = one inner parameter renamed to an enclosing parameter's name that the inner lambda never mentions; metadata = every MetaData call re-attached at a random place of the main chain, relative order "
     "kept; fuse = a generated Select(F).Select(G) / Where(P).Where(Q) column written split vs fused (G linear in its parameter). "
     "non-trivial = the variant's source differs from the base AND (alpha: >=1 nested lambda; metadata: >=2 chain steps and >=1 moved call; "
     "fuse/qastle: always); distinct by (base, variant)."
@@ -67,6 +67,7 @@ def rel_alpha(q: ast.AST, draw) -> ast.AST:
     q = copy.deepcopy(q)
     counter = [0]
     used = names_in(q)
+    all_params = {a.arg for l_ in ast.walk(q) if isinstance(l_, ast.Lambda) for a in l_.args.args}
 
     def fresh():
         while True:
@@ -87,8 +88,12 @@ def rel_alpha(q: ast.AST, draw) -> ast.AST:
                     continue
                 inside = names_in(node.body) | {x.arg for x in node.args.args}
                 cands = [o for o in outer if o not in inside]
+                siblings = sorted(all_params - inside - set(outer))
                 if choice == 1 and cands:
                     new = draw(st.sampled_from(cands))  # shadow an outer parameter this lambda never mentions
+                elif choice == 2 and siblings:
+                    # the name of a parameter of ANOTHER lambda of the query that is not in scope here (a sibling, a lambda of another step of the chain)
+                    new = draw(st.sampled_from(siblings))
                 else:
                     new = fresh()
                 old = a.arg
@@ -326,6 +331,26 @@ def shadow_chain(draw, backend):
 
 
 @st.composite
+def sibling_names(draw, backend):
+    """a value handed on in a dictionary next to a count that was computed with a filter of its own; the next step filters the value twice (func_adl fuses
+    the two filters, re-visiting what it has substituted under the filter's parameter name).  Base: the first step's filter parameter has a name of its own;
+    variant: it is called like the later filters' parameter (no lexical shadowing anywhere: they are siblings in different steps)."""
+    sch = standard_schema(backend)
+    acc, bank, vecs, nums = CHAIN_PROFILE[backend]
+    m1, m2, m3, m4 = (draw(st.sampled_from(nums)) for _ in range(4))
+    c1, c2 = draw(st.sampled_from(["25", "1.5", "0"])), draw(st.sampled_from(["1", "2.5", "-1"]))
+    second = draw(st.sampled_from([f"d.js.Where(lambda j: j.{m2}() > d.n).Where(lambda j: j.{m3}() < {c2}).Select(lambda j: j.{m4}())",
+                                   f"d.js.Where(lambda j: j.{m2}() > d.n).Where(lambda j: j.{m3}() < {c2}).Count()",
+                                   f"d.js.Where(lambda j: j.{m2}() > {c2}).Where(lambda j: j.{m3}() < d.n).Select(lambda j: j.{m4}() + d.n)"]))
+
+    def text(p):
+        return (f"Select(Select({dataset_text(sch)}, lambda e: {{'js': e.{acc}({bank!r}), 'n': e.{acc}('other').Where(lambda {p}: {p}.{m1}() > {c1}).Count()}}), "
+                f"lambda d: {second})")
+
+    return text("t"), text("j"), 1
+
+
+@st.composite
 def reserved_shadow(draw, backend):
     """three nested lambdas x > j > q where q's lambda mentions x but not j.  Variant: q is called j (pure shadowing: the executor will rename it to
     j_s<n>) and x is called by the very name the executor is about to invent (outcome() pins its counter to S_BASE)."""
@@ -371,7 +396,10 @@ def shortcut_names(draw, backend):
 
 @st.composite
 def cases(draw, backend):
-    rel = draw(st.sampled_from(["qastle", "alpha", "shadow", "shadow", "metadata", "fuse", "shadow-chain", "reserved", "reserved-shadow", "shortcut-names"]))
+    rel = draw(st.sampled_from(["qastle", "alpha", "shadow", "shadow", "metadata", "fuse", "shadow-chain", "reserved", "reserved-shadow", "shortcut-names", "sibling-names"]))
+    if rel == "sibling-names":
+        a, b, n = draw(sibling_names(backend))
+        return {"backend": backend, "rel": "alpha", "a": a, "b": b, "nested": True, "info": {"reserved_names": n}, "labels": ["sibling-names"]}
     if rel == "shortcut-names":
         a, b, n = draw(shortcut_names(backend))
         return {"backend": backend, "rel": "alpha", "a": a, "b": b, "nested": True, "info": {"reserved_names": n}, "labels": ["shortcut-names"]}
